@@ -157,6 +157,36 @@ def run(ctx, model_available=True):
                         if r3["msg"] is not None and msg_tuple(r3["msg"]) != m:
                             failures.append({"kind": "oracle", "sig": "C01:gateway-roundtrip", "desc": f"line {line!r} decoded to {m!r}; after the application changed the yielded object the same line decodes to {msg_tuple(r3['msg'])!r}", "case": {"message": m, "line": line}})
         impls.append(im)
+    # the line a parked command goes out with at its node's wake is the encoding of the message
+    # that was sent (a set command held in the sleep buffer is re-encoded when released)
+    for j in range(ctx.budget(30, 300)):
+        im = Impl()
+        v = ["2.0", "2.1", "2.2"][j % 3]
+        im.recv(f"0;255;3;0;2;{v}")
+        im.put_node(7, 17, v)
+        for c in (0, 1, 2):
+            im.add_child(7, c, 3)
+        im.set_sleeping(7, True)
+        sent = {}
+        for _ in range(4):
+            m = msgs[rng.randrange(len(msgs))]
+            n, c, k, a, t, p = m
+            if k != 1 or not payload_ok(p) or c > 2:
+                c, k = rng.randrange(3), 1
+                if not payload_ok(p):
+                    p = "21.5"
+            m = (7, c, k, a, t, p)
+            raw = im.send(m, buffered=True)
+            if raw["exc"] is None and not raw["writes"]:
+                sent[(c, t)] = m
+        wake = "7;255;3;0;32;500" if v == "2.2" else "7;255;3;0;22;123"
+        r = im.recv(wake)
+        gw_cases += 1
+        got = sorted(w for w, _ in r["writes"])
+        want = sorted(f"{m[0]};{m[1]};{m[2]};{m[3]};{m[4]};{m[5]}\n" for m in sent.values())
+        if got != want:
+            failures.append({"kind": "oracle", "sig": "C01:parked-roundtrip", "desc": f"commands {sorted(sent.values())!r} parked for a sleeping node went out at its wake as {got!r}, their encodings are {want!r}", "case": {"version": v, "history": im.ops}})
+        impls.append(im)
     # the same Message object sent again after its fields were changed: what is
     # written must be the encoding of the values it carries now
     import asyncio
